@@ -119,6 +119,11 @@ def raw_cases():
         c("const-string-element", "    const string s = \"abc\";\n    s[0] = 'x';\n    println(s);", "error", ""),
         c("const-3d-array", "    const int[2][2][2] t = [[[1, 2], [3, 4]], [[5, 6], [7, 8]]];\n    t[1][0][1] = 9;\n    println(t[1][0][1]);", "error", ""),
         c("const-array-to-writing-param", "    const int[3] a = [1, 2, 3];\n    w(a);\n    println(a[0]);", "error", "", pre="void w(int[3] q) { q[0] = 9; }\n"),
+        c("const-double-array-to-writing-param", "    const double[3] a = [1.5, 2.5, 3.5];\n    w(a);\n    println(a[0]);", "error", "", finding="const_array_written_through_array_parameter", pre="void w(double[3] q) { q[0] = 9.5; }\n"),
+        c("const-string-array-to-writing-param", "    const string[2] a = [\"x\", \"y\"];\n    w(a);\n    println(a[0]);", "error", "", finding="const_array_written_through_array_parameter", pre="void w(string[2] q) { q[0] = \"z\"; }\n"),
+        c("const-2d-array-to-writing-param", "    const int[2][2] a = [[1, 2], [3, 4]];\n    w(a);\n    println(a[0][0]);", "error", "", finding="const_array_written_through_array_parameter", pre="void w(int[2][2] q) { q[0][0] = 9; }\n"),
+        c("const-long-array-to-writing-param-compound", "    const long[3] a = [1, 2, 3];\n    w(a);\n    println(a[1]);", "error", "", pre="void w(long[3] q) { q[1] += 5; }\n"),
+        c("const-array-to-reading-param", "    const int[3] a = [1, 2, 3];\n    println(rd(a));", "ok", "6\nEND\n", pre="int rd(int[3] q) { return q[0] + q[1] + q[2]; }\n"),
         c("const-global-struct-method-write", "    K.bump();\n    println(K.x);", "error", "", pre="interface IB { void bump(); }\nimpl IB for P { void bump() { self.x = self.x + 1; } }\nconst P K = {1, 2};\n"),
         c("ptr-to-const-compound", "    int d = 3;\n    const int* p = &d;\n    *p += 1;\n    println(d);", "error", ""),
         c("ptr-to-const-arrow-incr", "    P s = {1, 2};\n    const P* p = &s;\n    p->x++;\n    println(s.x);", "error", ""),
